@@ -1088,10 +1088,10 @@ def case_from_bytes(data):
 
 
 def plan(tier):
-  n = 64000 if tier == "quick" else 600000
+  n = 64000 if tier == "quick" else 2000000
   return [
     Enum("grids", lambda: _all_enum(tier), shards=16),
     Hyp("generated", lambda: _strategy(tier), examples=n, shards=16),
-    atheris_driver("fuzz-text", "pvf.props.c16", runs=40000 if tier == "quick" else 2000000, corpus="corpus/C16",
-                   max_len=48, timeout_s=60 if tier == "quick" else 900),
+    atheris_driver("fuzz-text", "pvf.props.c16", runs=40000 if tier == "quick" else 8000000, corpus="corpus/C16",
+                   max_len=48, timeout_s=60 if tier == "quick" else 1500),
   ]
